@@ -63,4 +63,12 @@ theorem cache_coherent {B I : Type} (img : Option B → I) (ops : List (ScreenOp
     Coherent img (screenRun img (⟨none, none⟩ : ScreenState B I) ops) :=
   (screenRun_spec img ops _ (Or.inl rfl)).1
 
+/-- the optimisation `transfer_maps_merged` tracks the given beam through the lattice and thereby through the shared
+diagnostics: what arrives at every item it leaves unmerged is the beam element-by-element tracking sends there — for every
+semantics satisfying the linear contract (`semP_lawful`, `semM_lawful`: the model's two beam types over all element kinds) -/
+theorem merged_probe_beam_is_the_tracked_beam {E S M En : Type} (σ : Sem E S M En) (c : Lat.Custom σ)
+    (keep : Lat E → Bool) (h : σ.Lawful) (ls : List (Lat E)) (b : S) :
+    Lat.arrivals σ c keep ls b = Lat.arrSpec σ keep ls b :=
+  Lat.arrivals_spec σ c keep h ls b
+
 end C11
